@@ -419,6 +419,9 @@ func Pure(p *core.Prog, r *core.Report) {
 				_, ok = isCallOf(ic.Call.Args[0], "reflect.Value.Index")
 				return ok
 			}
+			if isMember(a) && !isMember(b) {
+				a, b = b, a // equality is symmetric: the member may stand on either side
+			}
 			switch {
 			case a == ssa.Value(data) && isMember(b):
 			case isMember(b):
@@ -459,7 +462,7 @@ func Pure(p *core.Prog, r *core.Report) {
 			}
 			switch qn {
 			case "reflect.DeepEqual":
-				if through(c.Call.Args[0]) == ssa.Value(data) {
+				if through(c.Call.Args[0]) == ssa.Value(data) || through(c.Call.Args[1]) == ssa.Value(data) {
 					guarded := false
 					for _, cd := range core.CondsAt(c.Block()) {
 						if bo, isBo := cd.Value.(*ssa.BinOp); isBo {
@@ -899,7 +902,11 @@ func isValueEqualityPredicate(p *core.Prog, g *ssa.Function) bool {
 			continue
 		}
 		h := core.StaticCallee(c)
-		if h == nil || core.QualName(h) != "reflect.DeepEqual" || through(c.Call.Args[0]) != ssa.Value(g.Params[0]) || through(c.Call.Args[1]) != ssa.Value(g.Params[1]) {
+		if h == nil || core.QualName(h) != "reflect.DeepEqual" {
+			continue
+		}
+		x, y := through(c.Call.Args[0]), through(c.Call.Args[1])
+		if !((x == ssa.Value(g.Params[0]) && y == ssa.Value(g.Params[1])) || (x == ssa.Value(g.Params[1]) && y == ssa.Value(g.Params[0]))) {
 			continue
 		}
 		ifi, ok := g.Blocks[0].Instrs[len(g.Blocks[0].Instrs)-1].(*ssa.If)
